@@ -7,7 +7,7 @@ from vlib.runner import Outcome, Sub
 
 ID = "C15"
 LEVEL = "exploration"
-RULE = ("Hypothesis-generated shifts tau (positive, negative, non-multiples of dt, large: 1e3+0.01) applied together with every "
+RULE = ("Hypothesis-generated shifts tau (positive, negative, non-multiples of dt, large: 1e3+0.01, 1.5e4+0.037, -2.5e4-0.013) applied together with every "
         "explicit time dependence: H(t), gamma(t), A(t) of TimeDependentSystems (sampled and integrated propagators), field "
         "dependent Hamiltonians and field equations of motion, control times given as floats (and steps), correlation times "
         "given as floats and intervals. Metamorphic oracle: running (start, f(t)) and (start+tau, f(t-tau)) gives identical "
@@ -20,7 +20,7 @@ LEVEL_TEXT = ("Each generated problem is run twice, with the origin shifted and 
 LEVEL_NOTE = "End times are given as start+(N+1/2)dt so the grid-rounding question of C13 cannot interfere; tolerance 1e-9 (1e-7 for tau ~ 1e3 and integrated propagators) for tensor-contraction routes; Tempo and MeanFieldTempo re-truncate at every step and are compared within the truncation tolerance 100 (N+1) eps + 1e-7."
 ASSUMPTIONS = ["control float times are >= 0.2 dt away from half-integer steps"]
 
-TAUS = [1.0, -0.37, 2.345678, 0.5, -3.21, 1000.01]
+TAUS = [1.0, -0.37, 2.345678, 0.5, -3.21, 1000.01, 15000.037, -25000.013]      # the last two: |t| * 1e-5 > dt for every dt
 
 
 @st.composite
